@@ -56,6 +56,20 @@ def seg_v(s):
     return tuple(vj(x) for x in s)
 
 
+def zexp(z):
+    """[pre, n, post] -> pre + "0"*n + post : long decimal strings are kept short in cases and on the
+    co-process line (Base/Proto's line parser is quadratic in the token length)"""
+    return z[0] + "0" * z[1] + z[2]
+
+
+def idx_str(d):
+    return zexp(d) if isinstance(d, list) else d
+
+
+def case_text(c, field):
+    return zexp(c["z"]) if c.get("z") is not None else c[field]
+
+
 # ------------------------------------------------------------------ implementation side
 def mk_obj(seg):
     from pycomm3.cip.data_types import LogicalSegment, PortSegment, DataSegment
@@ -88,6 +102,9 @@ def impl_case(c):
     if k == "seg":
         seg = seg_v(c["seg"])
         return guarded(lambda: (lambda o: type(o).encode(o, padded=c["padded"]))(mk_obj(seg)))
+    if k == "segz":
+        seg = ("P", c["port"], zexp(c["z"]))
+        return guarded(lambda: (lambda o: type(o).encode(o, padded=True))(mk_obj(seg)))
     if k == "epath":
         cls = PADDED_EPATH if c["padded"] else PACKED_EPATH
         segs = [seg_v(s) for s in c["segs"]]
@@ -100,11 +117,11 @@ def impl_case(c):
         info = {"tag_name": "x", "dim": 0}
         if c["inst"] != "absent":
             info["instance_id"] = c["inst"]
-        return guarded(lambda: util.tag_request_path(c["tag"], info, c["use"]))
+        return guarded(lambda: util.tag_request_path(case_text(c, "tag"), info, c["use"]))
     if k == "findidx":
         return guarded(lambda: util._find_tag_index(c["tag"]))
     if k == "pyint":
-        return guarded(lambda: int(c["s"]))
+        return guarded(lambda: int(case_text(c, "s")))
     if k == "ipok":
         def f():
             try:
@@ -161,12 +178,22 @@ def model_line(c):
         t = ["reqpath"] + lval_toks(vj(c["cls"])) + lval_toks(vj(c["inst"]))
         t += ["none"] if c["attr"] is None else lval_toks(vj(c["attr"]))
         return " ".join(t)
+    if k == "segz":
+        p, z = c["port"], c["z"]
+        return " ".join(["esegz", fw.t_int(z[1])] + (["n", fw.t_int(p)] if isinstance(p, int) else ["s", fw.t_text(p)]) + [fw.t_text(z[0]), fw.t_text(z[2])])
     if k == "tag":
         inst = c["inst"]
-        return " ".join(["tagpath", fw.t_text(c["tag"]), "none" if inst in ("absent", None) else fw.t_int(inst), b(c["use"])])
+        it = "none" if inst in ("absent", None) else fw.t_int(inst)
+        if c.get("z") is not None:
+            z = c["z"]
+            return " ".join(["tagpathz", fw.t_int(z[1]), fw.t_text(z[0]), fw.t_text(z[2]), it, b(c["use"])])
+        return " ".join(["tagpath", fw.t_text(c["tag"]), it, b(c["use"])])
     if k == "findidx":
         return " ".join(["findidx", fw.t_text(c["tag"])])
     if k == "pyint":
+        if c.get("z") is not None:
+            z = c["z"]
+            return " ".join(["pyintz", fw.t_int(z[1]), fw.t_text(z[0]), fw.t_text(z[2])])
         return " ".join(["pyint", fw.t_text(c["s"])])
     if k == "ipok":
         return " ".join(["ipok", fw.t_text(c["s"])])
@@ -227,7 +254,7 @@ def read_seg(seg):
             lk = bytes([l]) if 0 <= l <= 255 else None
         elif isinstance(l, str):
             if digits_ok(l):
-                lk = bytes([int(l)]) if int(l) <= 255 else None
+                lk = bytes([int(l)]) if len(l) <= 4300 and int(l) <= 255 else None
             elif dotted_quad(l):
                 lk = l.encode("ascii")
             else:
@@ -286,10 +313,10 @@ def tag_reading(ast, inst, use):
     for n, idx in levels:
         if not name_ok(n):
             return None
-        for d in idx:
+        for d in map(idx_str, idx):
             if not digits_ok(d) or len(d) > 4300 or int(d) >= 2 ** 32:
                 return None
-    members = lambda idx: [("L", 2, int(d)) for d in idx]
+    members = lambda idx: [("L", 2, int(idx_str(d))) for d in idx]
     lv = lambda l: [("S", l[0].encode("ascii"))] + members(l[1])
     if prog is not None:
         return [("S", ("Program:" + prog).encode("ascii"))] + [x for l in levels for x in lv(l)]
@@ -305,7 +332,7 @@ def render_tag(ast):
     if ast["program"] is not None:
         parts.append("Program:" + ast["program"])
     for n, idx in ast["levels"]:
-        parts.append(n + ("[" + ",".join(idx) + "]" if idx else ""))
+        parts.append(n + ("[" + ",".join(map(idx_str, idx)) + "]" if idx else ""))
     return ".".join(parts)
 
 
@@ -329,6 +356,9 @@ def intended(c):
             return None
         r = read_seg(seg_v(c["seg"]))
         return None if r is None else ([r], False, False)
+    if k == "segz":
+        r = read_seg(("P", c["port"], zexp(c["z"])))
+        return None if r is None else ([r], False, False)
     if k == "epath":
         if not c["padded"]:
             return None
@@ -344,7 +374,7 @@ def intended(c):
         r = read_all(segs)
         return None if r is None else (r, True, False)
     if k == "tag":
-        if c.get("ast") is None or render_tag(c["ast"]) != c["tag"]:
+        if c.get("ast") is None or render_tag(c["ast"]) != case_text(c, "tag"):
             return None
         r = tag_reading(c["ast"], None if c["inst"] == "absent" else c["inst"], c["use"])
         return None if r is None else (r, True, False)
@@ -758,9 +788,13 @@ def gen_cases(R, thorough):
     cs = []
     for name in ["a", "ab", "abc", "Tag_1", "x" * 254, "x" * 255, "x" * 256]:
         for idx in ([], ["0"], ["255"], ["256"], ["65535"], ["65536"], ["4294967295"], ["4294967296"], ["1", "2"], ["1", "256", "65535"], ["1", "2", "3", "4"],
-                    ["007"], ["0" * 4299 + "7"], ["0" * 4300 + "7"]):
+                    ["007"]):
             for inst, use in (("absent", False), (300, True), (5, True), (65536, True), (0, True), (5, False)):
                 cs.append(tag_case({"program": None, "levels": [[name, idx]]}, inst, use))
+    for n in (4299, 4300):      # int() refuses more than 4300 digits
+        for inst, use in (("absent", False), (300, True)):
+            ast = {"program": None, "levels": [["arr", [["", n, "7"]]], ["m", ["1"]]]}
+            cs.append({"k": "tag", "tag": None, "z": ["arr[", n, "7].m[1]"], "inst": inst, "use": use, "ast": ast})
     for prog in ["P", "Main", "x" * 246, "x" * 247, "x" * 248]:
         cs.append(tag_case({"program": prog, "levels": [["tag", ["1"]], ["m", []]]}, 7, True))
     for nlev in (30, 40, 41, 42, 43, 60):       # around the 255-word limit: 12 bytes per level
@@ -785,9 +819,14 @@ def gen_cases(R, thorough):
             cs.append({"k": "tag", "tag": s, "inst": inst, "use": use, "ast": None})
         cs.append({"k": "findidx", "tag": s})
     for s in ["", " ", "0", "-0", "+0", "00", "1_0", "_1", "1_", "1__0", " 12 ", "\t12\n", "\x0b12\x0c", "\x1c12", "12\x1f", "+ 1", "+-1", "1 0", "0x1", "1e3", "١", "12a",
-              "9" * 30, "0" * 4300, "0" * 4301, "1" + "_0" * 4299, "1" + "_0" * 4300, "-" + "1" * 4300, "+" + "1" * 4301, " " * 50 + "0" * 4300 + " "]:
+              "9" * 30]:
         if all(ord(ch) < 128 for ch in s):
             cs.append({"k": "pyint", "s": s})
+    for z in (["", 4300, ""], ["", 4301, ""], ["-", 4299, "1"], ["+", 4300, "1"], ["  ", 4300, " "], ["1_", 4299, ""], ["1_", 4300, ""], ["0_", 4299, "_1"]):
+        cs.append({"k": "pyint", "s": None, "z": z})
+    for z in (["", 4299, "5"], ["", 4300, "5"], ["", 4297, "255"], ["", 4297, "256"]):
+        cs.append({"k": "segz", "port": "bp", "z": z})
+        cs.append({"k": "segz", "port": 2, "z": z})
     for _ in range(3000 if thorough else 400):
         s = "".join(rng.choice("0123456789_+- \t\x1c\x0ba") if rng.random() < 0.4 else rng.choice("0123456789") for _ in range(rng.randrange(0, 7)))
         cs.append({"k": "pyint", "s": s})
